@@ -1,5 +1,5 @@
 CONSTANTS MinLg = 5  StrideBits = 7
-          Check = {"C01", "C04", "C11", "C18"}
+          Check = {"C01", "C04", "C11", "C12", "C13", "C18"}
 SPECIFICATION TSpec
 POSTCONDITION Accepted
 CHECK_DEADLOCK FALSE
